@@ -202,6 +202,26 @@ func OASStructureCatalogue() []*Request {
 		f.Services = []*Service{Svc("Plain", "/p", RPC("Lv", q(id, "Lv"), q(id, "Res"), "POST", "/lv"), RPC("Shape", q(id, "Shape"), q(id, "Res"), "POST", "/shape"))}
 		out = append(out, oasReq(id, f, "untagged-scalars"))
 	}
+	{ // integer literals that a float64 cannot hold (examples, const / in rules, header examples): the renderings must keep every digit
+		id := "oasbigint"
+		sp := func(x string) *string { return &x }
+		f := &File{
+			Messages: []*Message{
+				M("Acct", F("id", 1, "int64", Examples("9223372036854775807", "9007199254740993")), F("uid", 2, "uint64", Examples("18446744073709551615")),
+					F("code", 3, "string", Examples("00123")), F("lim", 4, "int64", WithRules(&Rules{NumConst: sp("9007199254740993")})),
+					F("pick", 5, "int64", WithRules(&Rules{NumIn: []string{"1234567890123456789", "-9223372036854775808"}})),
+					F("cap", 6, "uint64", WithRules(&Rules{NumLte: sp("18446744073709551615")})), F("small", 7, "int32", Examples("9007199254740992"))),
+				res(),
+			}}
+		f.Services = []*Service{Svc("Big", "/b", RPC("Do", q(id, "Acct"), q(id, "Res"), "POST", "/do").WithHeaders(&Header{Name: "X-Trace", Type: "integer", Example: "9223372036854775807"}))}
+		out = append(out, oasReq(id, f, "big-integers"))
+	}
+	{ // a digit-only example beyond 64 bits (the YAML-to-JSON conversion goes through float64 there)
+		id := "oasbeyond64"
+		f := &File{Messages: []*Message{M("Acct", F("code", 1, "string", Examples("12345678901234567890123"))), res()}}
+		f.Services = []*Service{Svc("Big", "/b", RPC("Do", q(id, "Acct"), q(id, "Res"), "POST", "/do"))}
+		out = append(out, oasReq(id, f, "big-integers"))
+	}
 	{ // Timestamp as RPC input/output and as field
 		id := "oasts"
 		f := &File{Messages: []*Message{M("Req", F("at", 1, "", Msg(Timestamp)), F("ats", 2, "", Msg(Timestamp), Rep()), F("by", 3, "", Msg(Timestamp), MapOf("string"))), res()}}
